@@ -26,6 +26,7 @@ import itertools
 import re
 from typing import Any, Dict, Iterator, List, Optional, Sequence, Set, Tuple
 
+from engine.srcmatch import U
 from engine.fold import EnumMember, Folder, FoldError
 from engine.model import AnalysisError, Program, base_names, dotted, walk_no_nested
 from engine.tokwire import Tok, TokWire, flat, merge_slots, toks
@@ -103,7 +104,7 @@ class LineEmit:
                     inner = v.value                                          # type: ignore[attr-defined]
                     if self.state['inq']:
                         esc = isinstance(inner, ast.Call) and dotted(inner.func) in ('_fgd_escape', 'escape_text')
-                        self.raw_slots.append((node, ast.unparse(inner)) if not esc else (node, ''))
+                        self.raw_slots.append((node, U(inner)) if not esc else (node, ''))
                     else:
                         self.out.append('WORD')
         elif isinstance(x, ast.BinOp) and isinstance(x.op, ast.Add):
@@ -116,14 +117,14 @@ class LineEmit:
                 a = lex_const(x.body.value, dict(self.state)) if isinstance(x.body, ast.Constant) else None
                 b = lex_const(x.orelse.value, dict(self.state)) if isinstance(x.orelse, ast.Constant) else None
                 if a is None or a != b:
-                    raise AnalysisError(f'line {x.lineno}: undecided conditional text `{ast.unparse(x)[:50]}`')
+                    raise AnalysisError(f'line {x.lineno}: undecided conditional text `{U(x)[:50]}`')
                 self.out += a
             else:
                 self.write(x.body if t else x.orelse, node)
         elif isinstance(x, (ast.Name, ast.Attribute, ast.Call)):
             self.out.append('WORD')
         else:
-            raise AnalysisError(f'line {getattr(x, "lineno", 0)}: written text `{ast.unparse(x)[:50]}` not recognised')
+            raise AnalysisError(f'line {getattr(x, "lineno", 0)}: written text `{U(x)[:50]}` not recognised')
 
     def block(self, stmts: Sequence[ast.stmt]) -> None:
         for st in stmts:
@@ -153,7 +154,7 @@ class LineEmit:
         if isinstance(st, ast.If):
             t = self.truthy(st.test)
             if t is UNKNOWN:
-                raise AnalysisError(f'line {st.lineno}: gate `{ast.unparse(st.test)[:60]}` is not decided by the configuration')
+                raise AnalysisError(f'line {st.lineno}: gate `{U(st.test)[:60]}` is not decided by the configuration')
             self.block(st.body if t else st.orelse)
             return
         if isinstance(st, ast.Assign) and len(st.targets) == 1 and isinstance(st.targets[0], ast.Name):
@@ -282,7 +283,7 @@ def run(ctx: Any, prog: Program) -> None:
             n_rec += len({id(c) for c in in_loop})
             hz = stale_loop_values(fn_, RECORDS)
             for c, v, lp in hz:
-                ctx.check('C16.Q7', False, fgd, c, f'`{ast.unparse(c)[:60]}` uses `{v}`, which this iteration only assigns on some paths: on the others the record gets the value left over from the previous record '
+                ctx.check('C16.Q7', False, fgd, c, f'`{U(c)[:60]}` uses `{v}`, which this iteration only assigns on some paths: on the others the record gets the value left over from the previous record '
                           '(an untagged resource after a tagged one inherits its tags)', func=q_, text=f'{q_}: {v} assigned per record')
             if not hz:
                 ctx.check('C16.Q7', True, fgd, in_loop[0], 'record arguments assigned per iteration', func=q_, text=f'{q_}: record arguments assigned per record')
@@ -313,7 +314,7 @@ def run(ctx: Any, prog: Program) -> None:
     ws = merge_slots(flat(tw({}).block(bsd['serialise'].body)))
     rs = merge_slots(flat(tw({}).block(bsd['unserialise'].body)))
     ctx.check('C16.Q1', ws == rs, db, bsd['serialise'], f'string dictionary: reader `{rs}`, writer `{ws}`', func='BinStrDict.serialise', text='string dictionary')
-    ok = 'STRING_SEP.join(inv_list)' in ast.unparse(bsd['serialise']) and '.split(STRING_SEP)' in ast.unparse(bsd['unserialise']) and 'lzma.compress' in ast.unparse(bsd['serialise']) and 'lzma.decompress' in ast.unparse(bsd['unserialise'])
+    ok = 'STRING_SEP.join(inv_list)' in U(bsd['serialise']) and '.split(STRING_SEP)' in U(bsd['unserialise']) and 'lzma.compress' in U(bsd['serialise']) and 'lzma.decompress' in U(bsd['unserialise'])
     ctx.shape('C16.Q1', ok, db, bsd['serialise'], 'dictionary strings are joined / split with STRING_SEP and lzma (de)compressed', func='BinStrDict.serialise', text='dictionary payload coding')
     # resource records inside ent_(un)serialise
     es, eu = db.func('ent_serialise'), db.func('ent_unserialise')
@@ -325,7 +326,7 @@ def run(ctx: Any, prog: Program) -> None:
     # the branch that carries the tag list, on either side: the `if` whose body calls write_tags / read_tags (its test is the configuration key)
     def tag_test(loop: ast.AST, meth: str) -> Optional[str]:
         ifs_ = [n for n in ast.walk(loop) if isinstance(n, ast.If) and any(isinstance(c, ast.Call) and (dotted(c.func) or '').endswith('.' + meth) for st in n.body for c in ast.walk(st))]
-        return ast.unparse(ifs_[0].test) if len(ifs_) == 1 else None
+        return U(ifs_[0].test) if len(ifs_) == 1 else None
     w_key, r_key = tag_test(wres[0], 'write_tags'), tag_test(rres[0], 'read_tags')
     ctx.shape('C16.Q1', w_key is not None and r_key is not None, db, wres[0], 'one tag-list branch in the resource loop of ent_serialise and of ent_unserialise', func='ent_serialise', text='resource record tag branch')
     for tagged in (True, False):
@@ -356,9 +357,9 @@ def run(ctx: Any, prog: Program) -> None:
     class _Subst(ast.NodeTransformer):
         def visit_Name(self, node: ast.Name) -> ast.AST:
             if isinstance(node.ctx, ast.Load) and len(_defs.get(node.id, [])) == 1:
-                return self.visit(ast.parse(ast.unparse(_defs[node.id][0]), mode='eval').body)
+                return self.visit(ast.parse(U(_defs[node.id][0]), mode='eval').body)
             return node
-    wargs = [ast.fix_missing_locations(ast.copy_location(_Subst().visit(ast.parse(ast.unparse(a), mode='eval').body), a)) for a in hw[0].args]
+    wargs = [ast.fix_missing_locations(ast.copy_location(_Subst().visit(ast.parse(U(a), mode='eval').body), a)) for a in hw[0].args]
     ctx.check('C16.Q1', len(rnames) == len(wargs) == 6, db, hw[0], f'entity header: {len(wargs)} values packed, {len(rnames)} unpacked', func='ent_serialise', text='entity header arity')
     # reader: count variable -> collection filled by the loop it bounds
     rcoll: Dict[str, str] = {}
@@ -373,7 +374,7 @@ def run(ctx: Any, prog: Program) -> None:
     order_w: List[str] = []
     for i, (rn, wa) in enumerate(zip(rnames, wargs)):
         if i == 0:
-            ctx.shape('C16.Q1', rn == 'flags' and 'flags' in ast.unparse(wa), db, wa, 'first header byte carries the entity flags', func='ent_serialise', text='entity header slot 0 flags')
+            ctx.shape('C16.Q1', rn == 'flags' and 'flags' in U(wa), db, wa, 'first header byte carries the entity flags', func='ent_serialise', text='entity header slot 0 flags')
             continue
         wcoll = sorted({x.attr for x in ast.walk(wa) if isinstance(x, ast.Attribute) and dotted(x.value) == 'ent'})
         order_w += wcoll
@@ -381,10 +382,10 @@ def run(ctx: Any, prog: Program) -> None:
                   text=f'entity header slot {i} {rn}')
         # count equals records written: a collection whose writing loop can skip an entry must not be counted with len()
         if wcoll and wcoll[0] in ('keyvalues', 'inputs', 'outputs'):
-            skip = [s for s in ast.walk(es) if isinstance(s, ast.If) and ast.unparse(s.test) == 'not tag_map' and any(isinstance(b, ast.Continue) for b in s.body)]
+            skip = [s for s in ast.walk(es) if isinstance(s, ast.If) and U(s.test) == 'not tag_map' and any(isinstance(b, ast.Continue) for b in s.body)]
             plain_len = isinstance(wa, ast.Call) and dotted(wa.func) == 'len'
-            filtered = 'if tag_map' in ast.unparse(wa)
-            ctx.check('C16.Q1', not (skip and plain_len) and (filtered or not skip), db, wa, f'entity header slot {i}: `{ast.unparse(wa)}` counts every name of ent.{wcoll[0]}, but the writing loop skips names whose tag map is empty: '
+            filtered = 'if tag_map' in U(wa)
+            ctx.check('C16.Q1', not (skip and plain_len) and (filtered or not skip), db, wa, f'entity header slot {i}: `{U(wa)}` counts every name of ent.{wcoll[0]}, but the writing loop skips names whose tag map is empty: '
                       'the reader then consumes the following bytes as extra definitions', func='ent_serialise', text=f'entity header slot {i} counts records written')
     it = fgd.func('EntityDef._iter_attrs')
     yielded = [dotted(y.value).split('.')[-1] for y in ast.walk(it) if isinstance(y, ast.Yield) and y.value is not None]
@@ -411,7 +412,7 @@ def run(ctx: Any, prog: Program) -> None:
 
     def or_consts(fn: ast.AST, var: str) -> Set[int]:
         out = {cint(n.value) for n in ast.walk(fn) if isinstance(n, ast.AugAssign) and isinstance(n.op, ast.BitOr) and dotted(n.target) == var and cint(n.value) is not None}
-        out |= {cint(n.right) for n in ast.walk(fn) if isinstance(n, ast.BinOp) and isinstance(n.op, ast.BitOr) and var in ast.unparse(n.left) and cint(n.right) is not None}
+        out |= {cint(n.right) for n in ast.walk(fn) if isinstance(n, ast.BinOp) and isinstance(n.op, ast.BitOr) and var in U(n.left) and cint(n.right) is not None}
         return out      # type: ignore[return-value]
     for wfn, rfn, wvar, rvar in (('kv_serialise', 'kv_unserialise', 'value_type', 'value_ind'), ('kv_serialise', 'kv_unserialise', 'power', 'power'), ('ent_serialise', 'ent_unserialise', 'FILE_TYPE_INDEX[res.type]', 'file_ind')):
         wo, ra = or_consts(db.func(wfn), wvar), and_consts(db.func(rfn), rvar)
@@ -420,18 +421,18 @@ def run(ctx: Any, prog: Program) -> None:
             continue
         bit = max(wo)
         ctx.check('C16.Q1', bit in ra and (bit - 1) in ra and bit == 128, db, db.func(rfn), f'the writer sets bit {bit} of `{wvar}`; the reader combines `{rvar}` with {sorted(ra)}: it must test & {bit} and mask & {bit - 1}', func=wfn, text=f'flag bit {wvar}')
-    ok = 'flags & EntFlags.MASK_TYPE' in ast.unparse(eu) and 'EntFlags.IS_ALIAS & flags' in ast.unparse(eu) and 'flags |= EntFlags.IS_ALIAS' in ast.unparse(es) and 'ENTITY_TYPE_2_FLAG[ent.type]' in ast.unparse(es)
+    ok = 'flags & EntFlags.MASK_TYPE' in U(eu) and 'EntFlags.IS_ALIAS & flags' in U(eu) and 'flags |= EntFlags.IS_ALIAS' in U(es) and 'ENTITY_TYPE_2_FLAG[ent.type]' in U(es)
     ctx.shape('C16.Q1', ok, db, es, 'entity flags: type bits through ENTITY_TYPE_2_FLAG / MASK_TYPE, alias bit both ways', func='ent_serialise', text='entity flag bits')
     # top level
     sw = tw({}, sub={'ent_serialise': 'ENT', 'ent_unserialise': 'ENT', 'base_dict.serialise': 'DICT', 'dictionary.serialise': 'DICT', 'BinStrDict.unserialise': 'DICT', 'build_blocks': '', 'compute_ent_strings': ''})
     sfn, ufn = db.func('serialise'), db.func('unserialise')
     hdr_w = [c for c in walk_no_nested(sfn) if isinstance(c, ast.Call) and dotted(c.func) == '_fmt_header.pack']
     hdr_r = [c for c in walk_no_nested(ufn) if isinstance(c, ast.Call) and dotted(c.func) == '_fmt_header.unpack']
-    ok = len(hdr_w) == 1 and len(hdr_r) == 1 and [ast.unparse(a) for a in hdr_w[0].args] == ['BIN_FORMAT_VERSION', 'len(blocks)'] and "file.read(3) != b'FGD'" in ast.unparse(ufn) and "b'FGD' + _fmt_header.pack" in ast.unparse(sfn)
+    ok = len(hdr_w) == 1 and len(hdr_r) == 1 and [U(a) for a in hdr_w[0].args] == ['BIN_FORMAT_VERSION', 'len(blocks)'] and "file.read(3) != b'FGD'" in U(ufn) and "b'FGD' + _fmt_header.pack" in U(sfn)
     ctx.shape('C16.Q1', ok, db, sfn, 'file header: magic, format version, block count', func='serialise', text='file header')
-    ok = 'format_version != BIN_FORMAT_VERSION' in ast.unparse(ufn)
+    ok = 'format_version != BIN_FORMAT_VERSION' in U(ufn)
     ctx.shape('C16.Q1', ok, db, ufn, 'the reader rejects other format versions', func='unserialise', text='version check')
-    wsrc, usrc = ast.unparse(sfn), ast.unparse(ufn)
+    wsrc, usrc = U(sfn), U(ufn)
     ok = ('file.write(_fmt_16bit.pack(len(classnames)))' in wsrc and 'file.write(classnames)' in wsrc and "deferred.defer(('block', id(block_ents)), _fmt_block_pos, write=True)" in wsrc
           and '[cls_size] = _fmt_16bit.unpack(file.read(2))' in usrc and 'file.read(cls_size)' in usrc and '_fmt_block_pos.unpack(file.read(_fmt_block_pos.size))' in usrc)
     ctx.shape('C16.Q1', ok, db, sfn, 'block table entry: 16-bit length, class names, (offset, size)', func='serialise', text='block table entry')
@@ -440,7 +441,7 @@ def run(ctx: Any, prog: Program) -> None:
     if len(sd) != 1 or len(ru) != 1:
         ctx.shape('C16.Q1', False, db, sfn, 'block position set_data / unpack not found', func='serialise', text='block position linkage')
     else:
-        sdefs = {t.id: ast.unparse(n.value) for n in ast.walk(sfn) if isinstance(n, ast.Assign) for t in n.targets if isinstance(t, ast.Name)}
+        sdefs = {t.id: U(n.value) for n in ast.walk(sfn) if isinstance(n, ast.Assign) for t in n.targets if isinstance(t, ast.Name)}
         def role(a: ast.AST) -> str:
             d = sdefs.get(dotted(a) or '', '')
             return 'pos' if d == 'file.tell()' else ('len' if 'file.tell() -' in d else '?')
@@ -451,7 +452,7 @@ def run(ctx: Any, prog: Program) -> None:
         if '?' in roles or not (seeks and reads):
             ctx.shape('C16.Q1', False, db, sd[0], 'roles of the block position fields not recognised', func='serialise', text='block position linkage')
         else:
-            ctx.check('C16.Q1', roles == ('pos', 'len'), db, sd[0], f'block position: the writer stores ({ast.unparse(sd[0].args[1])}, {ast.unparse(sd[0].args[2])}) = {roles}; the reader seeks to the first field and reads as many bytes as the second',
+            ctx.check('C16.Q1', roles == ('pos', 'len'), db, sd[0], f'block position: the writer stores ({U(sd[0].args[1])}, {U(sd[0].args[2])}) = {roles}; the reader seeks to the first field and reads as many bytes as the second',
                       func='serialise', text='block position linkage')
     ok = 'STRING_SEP.join((ent.classname for ent in block_ents))' in wsrc and '.split(STRING_SEP)' in usrc
     ctx.shape('C16.Q1', ok, db, sfn, 'class names joined / split with STRING_SEP', func='serialise', text='class name list coding')
@@ -473,7 +474,7 @@ def run(ctx: Any, prog: Program) -> None:
         ctx.check('C16.Q2', set(listed) == set(canon.values()), db, node, f'{tbl} misses {sorted(set(canon.values()) - set(x for x in listed if x))}', func='<module>', text=f'{tbl} complete')
         ctx.check('C16.Q2', len(listed) <= 128, db, node, f'{tbl} has {len(listed)} entries; the index shares a byte with a flag bit', func='<module>', text=f'{tbl} fits 7 bits')
         idx = db.global_assign(tbl.replace('_ORDER', '_INDEX'))
-        ctx.shape('C16.Q2', ast.unparse(idx) == f'{{val: ind for ind, val in enumerate({tbl})}}', db, idx, f'{tbl.replace("_ORDER", "_INDEX")} must be the enumeration of {tbl}', func='<module>', text=f'{tbl} index table')
+        ctx.shape('C16.Q2', U(idx) == f'{{val: ind for ind, val in enumerate({tbl})}}', db, idx, f'{tbl.replace("_ORDER", "_INDEX")} must be the enumeration of {tbl}', func='<module>', text=f'{tbl} index table')
     # string slots: what goes into the dictionary is the field itself (None may become ''), never a substitute taken from another field
     n_str = 0
     for sub_ in ast.walk(db.tree):
@@ -486,10 +487,10 @@ def run(ctx: Any, prog: Program) -> None:
         n_str += 1
         if isinstance(a_, ast.BoolOp) and isinstance(a_.op, ast.Or):
             others = [v for v in a_.values[1:] if not (isinstance(v, ast.Constant) and v.value == '')]
-            ctx.check('C16.Q2', not others, db, sub_, f'`{ast.unparse(sub_)}` stores `{ast.unparse(others[0]) if others else ""}` in place of an empty `{ast.unparse(a_.values[0])}`: the reader hands the substitute back as the '
-                      'field value, so a blank value does not survive the binary format', func=fn_name, text=f'{fn_name}: {ast.unparse(a_.values[0])} written as it is')
+            ctx.check('C16.Q2', not others, db, sub_, f'`{U(sub_)}` stores `{U(others[0]) if others else ""}` in place of an empty `{U(a_.values[0])}`: the reader hands the substitute back as the '
+                      'field value, so a blank value does not survive the binary format', func=fn_name, text=f'{fn_name}: {U(a_.values[0])} written as it is')
         else:
-            ctx.check('C16.Q2', True, db, sub_, 'field written as it is', func=fn_name, text=f'{fn_name}: {ast.unparse(a_)[:40]} written as it is')
+            ctx.check('C16.Q2', True, db, sub_, 'field written as it is', func=fn_name, text=f'{fn_name}: {U(a_)[:40]} written as it is')
     if n_str < 7:
         raise AnalysisError(f'only {n_str} dictionary string writes found in the serialisers (8 confirmed by hand)')
     # the coded value is the stored field itself: <X>_INDEX[obj.field] on the writing side, <X>_ORDER[<int expr>] used as-is on the reading side
@@ -503,12 +504,12 @@ def run(ctx: Any, prog: Program) -> None:
                 n_idx += 1
                 if dotted(sub.value).endswith('_INDEX'):
                     plain = dotted(sub.slice) is not None and '.' in dotted(sub.slice)
-                    ctx.check('C16.Q2', plain, db, sub, f'`{ast.unparse(sub)}`: the index written is not that of the stored field but of a value derived from it, so the reader reconstructs something else',
+                    ctx.check('C16.Q2', plain, db, sub, f'`{U(sub)}`: the index written is not that of the stored field but of a value derived from it, so the reader reconstructs something else',
                               func=fn_name, text=f'{tblname}_INDEX of a plain field')
                 else:
                     par = db.parents.get(sub)
                     direct = isinstance(par, (ast.Assign, ast.AnnAssign, ast.keyword, ast.Return)) or (isinstance(par, ast.Call) and sub in par.args)
-                    ctx.check('C16.Q2', direct, db, sub, f'`{ast.unparse(par)[:70]}`: the decoded member is transformed before it is stored', func=fn_name, text=f'{tblname}_ORDER result stored as-is')
+                    ctx.check('C16.Q2', direct, db, sub, f'`{U(par)[:70]}`: the decoded member is transformed before it is stored', func=fn_name, text=f'{tblname}_ORDER result stored as-is')
     if n_idx < 7:
         raise AnalysisError(f'only {n_idx} uses of the *_INDEX / *_ORDER tables found (7 confirmed by hand)')
     ef = fold.enum_table('EntFlags')
@@ -522,24 +523,24 @@ def run(ctx: Any, prog: Program) -> None:
         if flag is not None:
             seen[flag.value] = m.name
     ctx.check('C16.Q2', ef.members['IS_ALIAS'].value & mask == 0, db, db.cls('EntFlags'), 'IS_ALIAS overlaps the type bits', func='EntFlags', text='alias bit outside type mask')
-    ok = ast.unparse(db.global_assign('ENTITY_FLAG_2_TYPE')) == '{flag: kind for kind, flag in ENTITY_TYPE_2_FLAG.items()}' and "EntFlags['TYPE_' + kind.name]" in ast.unparse(db.global_assign('ENTITY_TYPE_2_FLAG'))
+    ok = U(db.global_assign('ENTITY_FLAG_2_TYPE')) == '{flag: kind for kind, flag in ENTITY_TYPE_2_FLAG.items()}' and "EntFlags['TYPE_' + kind.name]" in U(db.global_assign('ENTITY_TYPE_2_FLAG'))
     ctx.shape('C16.Q2', ok, db, db.global_assign('ENTITY_FLAG_2_TYPE'), 'ENTITY_FLAG_2_TYPE inverts ENTITY_TYPE_2_FLAG', func='<module>', text='entity flag tables inverse')
     # ---- Q3 --------------------------------------------------------------------------------------------------
     lk = fgd.global_assign('VALUE_TYPE_LOOKUP')
-    ctx.shape('C16.Q3', ast.unparse(lk) == '{typ.value: typ for typ in ValueTypes}', fgd, lk, 'VALUE_TYPE_LOOKUP must map every ValueTypes.value to its member', func='<module>', text='VALUE_TYPE_LOOKUP from enum')
+    ctx.shape('C16.Q3', U(lk) == '{typ.value: typ for typ in ValueTypes}', fgd, lk, 'VALUE_TYPE_LOOKUP must map every ValueTypes.value to its member', func='<module>', text='VALUE_TYPE_LOOKUP from enum')
     vals = [m.value for m in {mm.name: mm for mm in vt}.values()]
     ctx.check('C16.Q3', len(set(vals)) == len(vals) and all(isinstance(v, str) and v == v.casefold() and re.fullmatch(r'[a-z0-9_]+', v) for v in vals), fgd, fgd.cls('ValueTypes'),
               'ValueTypes values are written bare inside (...) and looked up case-folded: they must be distinct lower-case words', func='ValueTypes', text='ValueTypes values distinct lower-case')
     by_name = ffold.global_('RESTYPE_BY_NAME')
     to_name_node = fgd.global_assign('RESTYPE_TO_NAME')
-    ctx.shape('C16.Q3', ast.unparse(to_name_node) == '{restype: name for name, restype in RESTYPE_BY_NAME.items()}', fgd, to_name_node, 'RESTYPE_TO_NAME is derived from RESTYPE_BY_NAME (every written name parses back to the same type)',
+    ctx.shape('C16.Q3', U(to_name_node) == '{restype: name for name, restype in RESTYPE_BY_NAME.items()}', fgd, to_name_node, 'RESTYPE_TO_NAME is derived from RESTYPE_BY_NAME (every written name parses back to the same type)',
               func='<module>', text='RESTYPE_TO_NAME derived')
     if not isinstance(by_name, dict) or len(by_name) < 10:
         raise AnalysisError('RESTYPE_BY_NAME could not be folded')
     for nm in by_name:
         ctx.check('C16.Q3', isinstance(nm, str) and re.fullmatch(r'[a-z_]+', nm) is not None, fgd, fgd.global_assign('RESTYPE_BY_NAME'), f'resource keyword {nm!r} must be a bare lower-case word', func='<module>', text=f'resource keyword {nm}')
     ep = fgd.func('EntityDef.parse')
-    ok = 'RESTYPE_BY_NAME[' in ast.unparse(ep) or 'RESTYPE_BY_NAME.get' in ast.unparse(ep)
+    ok = 'RESTYPE_BY_NAME[' in U(ep) or 'RESTYPE_BY_NAME.get' in U(ep)
     ctx.shape('C16.Q3', ok, fgd, ep, 'EntityDef.parse resolves @resources keywords through RESTYPE_BY_NAME', func='EntityDef.parse', text='resources parsed through RESTYPE_BY_NAME')
     # helpers
     ht = ffold.enum_table('HelperTypes')
@@ -558,14 +559,14 @@ def run(ctx: Any, prog: Program) -> None:
         ctx.check('C16.Q3', len(impl_c.get(m.name, [])) == 1, fgd, fgd.cls('HelperTypes'), f'HelperTypes.{m.name} is implemented by {impl_c.get(m.name, [])}: exactly one class with TYPE = HelperTypes.{m.name} must exist '
                   '(the last one registered wins silently)', func='HelperTypes', text=f'helper {m.name} implemented once')
     ee = fgd.func('EntityDef.export')
-    ok = "self.type.value.title().replace('class', 'Class')" in ast.unparse(ee) and 'EntityTypes(token_value[1:])' in ast.unparse(fgd.func('FGD.parse_file')) and 'token_value = token_value.casefold()' in ast.unparse(fgd.func('FGD.parse_file'))
+    ok = "self.type.value.title().replace('class', 'Class')" in U(ee) and 'EntityTypes(token_value[1:])' in U(fgd.func('FGD.parse_file')) and 'token_value = token_value.casefold()' in U(fgd.func('FGD.parse_file'))
     ctx.shape('C16.Q3', ok, fgd, ee, 'entity kind: written as @<Title-cased value>, parsed by EntityTypes(case-folded token without @)', func='EntityDef.export', text='entity kind keyword')
     for m in {mm.name: mm for mm in ent_types}.values():
         ctx.check('C16.Q3', isinstance(m.value, str) and m.value == m.value.casefold() and m.value.endswith('class'), fgd, fgd.cls('EntityTypes'), f'EntityTypes.{m.name} = {m.value!r} must be a lower-case word ending in "class"', func='EntityTypes',
                   text=f'entity kind {m.name}')
     # keywords: readonly / report / input / output / base / @resources / halfgridsnap
-    kp = ast.unparse(fgd.func('KVDef._parse'))
-    ke = ast.unparse(fgd.func('KVDef.export'))
+    kp = U(fgd.func('KVDef._parse'))
+    ke = U(fgd.func('KVDef.export'))
     for kw in ('readonly', 'report'):
         ctx.shape('C16.Q3', f"file.write('{kw} ')" in ke and f"key_flag.casefold() == '{kw}'" in kp, fgd, fgd.func('KVDef.export'), f'keyword `{kw}` written and recognised', func='KVDef.export', text=f'keyword {kw}')
     def const_line(fn: ast.AST, value: str) -> Optional[int]:
@@ -578,8 +579,8 @@ def run(ctx: Any, prog: Program) -> None:
     else:
         ctx.check('C16.Q3', (w_ro < w_rp) == (p_ro < p_rp), fgd, fgd.func('KVDef.export'), 'the writer emits `readonly` and `report` in the opposite order to the one the parser looks for them in (the parser reads them in a fixed order)',
                   func='KVDef.export', text='keyword order readonly/report')
-    eps = ast.unparse(ep)
-    ees = ast.unparse(ee)
+    eps = U(ep)
+    ees = U(ee)
     for kw, wr in (('input', "inp.export(file, 'input'"), ('output', "out.export(file, 'output'")):
         ctx.shape('C16.Q3', wr in ees and f"'{kw}'" in eps, fgd, ee, f'keyword `{kw}`', func='EntityDef.export', text=f'keyword {kw}')
     hvals = {m.name: m.value for m in ht}
@@ -595,7 +596,7 @@ def run(ctx: Any, prog: Program) -> None:
                    and any(isinstance(v, ast.FormattedValue) and dotted(v.value) == 'helper.TYPE.value' for v in c.args[0].values)
                    and any(isinstance(v, ast.Constant) and str(v.value).endswith('(') for v in c.args[0].values) for c in ast.walk(ee))
     ctx.shape('C16.Q3', 'HelperTypes(token_value)' in eps and fmt_type, fgd, ee, 'helpers are written by HelperTypes value and parsed by HelperTypes(value)', func='EntityDef.export', text='helper name coding')
-    ok = "file.write('(bool)')" in ast.unparse(fgd.func('IODef.export')) and "VALUE_TYPE_LOOKUP['bool'] = ValueTypes.BOOL" in fgd.text
+    ok = "file.write('(bool)')" in U(fgd.func('IODef.export')) and "VALUE_TYPE_LOOKUP['bool'] = ValueTypes.BOOL" in fgd.text
     ctx.shape('C16.Q3', ok, fgd, fgd.func('IODef.export'), 'I/O boolean is written as (bool), which the lookup table accepts', func='IODef.export', text='io bool alias')
     # ---- Q4 --------------------------------------------------------------------------------------------------
     kinds = {'SPAWNFLAGS': vt.members['SPAWNFLAGS'], 'CHOICES': vt.members['CHOICES'], 'BOOL': vt.members['BOOL'], 'STRING': vt.members['STRING']}
@@ -642,9 +643,9 @@ def run(ctx: Any, prog: Program) -> None:
                             'whitespace or a trailing newline (silently dropped when parsed back)')
             child_, cur_ = cur_, fgd.parents.get(cur_)
         if guard_ok is None:
-            ctx.shape('C16.Q4', False, fgd, w_, f'guard of the unquoted write `{ast.unparse(w_)[:50]}` not recognised', func='KVDef.export', text=f'bare slot {var_} guarded')
+            ctx.shape('C16.Q4', False, fgd, w_, f'guard of the unquoted write `{U(w_)[:50]}` not recognised', func='KVDef.export', text=f'bare slot {var_} guarded')
         else:
-            ctx.check('C16.Q4', guard_ok, fgd, w_, f'`{ast.unparse(w_)[:50]}` writes `{var_}` without quotes: {why_}', func='KVDef.export', text=f'bare slot {var_} guarded')
+            ctx.check('C16.Q4', guard_ok, fgd, w_, f'`{U(w_)[:50]}` writes `{var_}` without quotes: {why_}', func='KVDef.export', text=f'bare slot {var_} guarded')
     iexp = fgd.func('IODef.export')
     for ds in ('', 'x'):
         le = LineEmit(fgd, ffold, {'self.desc': ds, 'tags': (), 'custom_syntax': True, 'self._type': vt.members['STRING'], 'self._type is ValueTypes.BOOL': False, 'isinstance(self._type, ValueTypes)': True}, raw_slots)
@@ -665,8 +666,8 @@ def run(ctx: Any, prog: Program) -> None:
                             n_slots += 1
                             inner = v.value                                  # type: ignore[attr-defined]
                             esc = isinstance(inner, ast.Call) and dotted(inner.func) in ('_fgd_escape', 'escape_text')
-                            ctx.check('C16.Q4', esc, fgd, c, f'`{ast.unparse(inner)}` is written between quotes without _fgd_escape()/escape_text(): a double quote in it ends the string early and backslash sequences are decoded by the parser',
-                                      func=qual, text=f'quoted slot {ast.unparse(inner)[:40]}')
+                            ctx.check('C16.Q4', esc, fgd, c, f'`{U(inner)}` is written between quotes without _fgd_escape()/escape_text(): a double quote in it ends the string early and backslash sequences are decoded by the parser',
+                                      func=qual, text=f'quoted slot {U(inner)[:40]}')
             # values quoted by hand: value = f'"{value}"'
             if isinstance(c, ast.Assign) and isinstance(c.value, ast.JoinedStr):
                 st = {'inq': False}
@@ -677,7 +678,7 @@ def run(ctx: Any, prog: Program) -> None:
                         n_slots += 1
                         inner = v.value                                      # type: ignore[attr-defined]
                         esc = isinstance(inner, ast.Call) and dotted(inner.func) in ('_fgd_escape', 'escape_text')
-                        ctx.check('C16.Q4', esc, fgd, c, f'`{ast.unparse(inner)}` is quoted by hand without _fgd_escape()/escape_text()', func=qual, text=f'quoted slot {ast.unparse(inner)[:40]}')
+                        ctx.check('C16.Q4', esc, fgd, c, f'`{U(inner)}` is quoted by hand without _fgd_escape()/escape_text()', func=qual, text=f'quoted slot {U(inner)[:40]}')
     if n_slots < 3:
         raise AnalysisError('FGD writers: quoted slots not found')
     # the escaping mode follows the caller's custom_syntax everywhere (the parser always decodes escapes)
@@ -685,11 +686,11 @@ def run(ctx: Any, prog: Program) -> None:
         for c in ast.walk(fgd.func(qual)):
             if isinstance(c, ast.Call) and dotted(c.func) == '_write_longstring' and len(c.args) >= 3:
                 ok = dotted(c.args[1]) == 'custom_syntax'
-                ctx.check('C16.Q4', ok, fgd, c, f'`{ast.unparse(c)[:90]}` fixes the escaping mode to `{ast.unparse(c.args[1])}`: with custom syntax enabled the legacy mode turns " into \'\' and leaves backslashes raw, '
-                          'which the escape-decoding parser reads back differently', func=qual, text=f'longstring mode follows custom_syntax: {ast.unparse(c.args[2])[:40]}')
+                ctx.check('C16.Q4', ok, fgd, c, f'`{U(c)[:90]}` fixes the escaping mode to `{U(c.args[1])}`: with custom syntax enabled the legacy mode turns " into \'\' and leaves backslashes raw, '
+                          'which the escape-decoding parser reads back differently', func=qual, text=f'longstring mode follows custom_syntax: {U(c.args[2])[:40]}')
     # _write_longstring
     wl = fgd.func('_write_longstring')
-    wsrc = ast.unparse(wl)
+    wsrc = U(wl)
     ctx.shape('C16.Q4', 'remaining = _fgd_escape(extended, text)' in wsrc, fgd, wl, 'long strings are escaped before they are split', func='_write_longstring', text='escape before split')
     fixed = [n for n in ast.walk(wl) if isinstance(n, ast.Assign) and dotted(n.targets[0]) == 'split_pos' and dotted(n.value) == 'LIMIT']
     if len(fixed) != 1:
@@ -699,7 +700,7 @@ def run(ctx: Any, prog: Program) -> None:
         if isinstance(n, ast.If) and fixed[0] in n.body:
             par = n
     after = par.body[par.body.index(fixed[0]) + 1:] if isinstance(par, ast.If) else []
-    guard = any("'\\\\'" in ast.unparse(s) and ('rstrip' in ast.unparse(s) or 'endswith' in ast.unparse(s)) for s in after) and any(isinstance(x, ast.AugAssign) and dotted(x.target) == 'split_pos' for s in after for x in ast.walk(s))
+    guard = any("'\\\\'" in U(s) and ('rstrip' in U(s) or 'endswith' in U(s)) for s in after) and any(isinstance(x, ast.AugAssign) and dotted(x.target) == 'split_pos' for s in after for x in ast.walk(s))
     ctx.check('C16.Q4', guard, fgd, fixed[0], 'the cut at exactly LIMIT characters may fall between a backslash and the character it escapes; the two pieces are tokenised separately, so the cut position must be moved off '
               'an odd run of trailing backslashes', func='_write_longstring', text='fixed cut checks for a split escape')
     ok = "sections.append(f'\"{remaining[:split_pos]}\"')" in wsrc and "(' +\\n' + indent).join(sections)" in wsrc
@@ -711,12 +712,12 @@ def run(ctx: Any, prog: Program) -> None:
     kws = {k.arg: (k.value.value if isinstance(k.value, ast.Constant) else None) for k in tk[0].keywords} if tk else {}
     ctx.check('C16.Q4', len(tk) == 1 and kws.get('string_bracket') is False and kws.get('colon_operator') is True and kws.get('plus_operator') is True and kws.get('allow_escapes', True) is True, fgd, tk[0] if tk else pf,
               'parse_file must tokenise with colon and plus operators, without bracket strings, decoding escapes', func='FGD.parse_file', text='tokenizer options')
-    rc = ast.unparse(fgd.func('_read_colon_list'))
+    rc = U(fgd.func('_read_colon_list'))
     ctx.shape('C16.Q4', 'token is Token.PLUS' in rc and 'strings[-1] += tok.expect(Token.STRING)' in rc, fgd, fgd.func('_read_colon_list'), 'the reader concatenates +-joined pieces', func='_read_colon_list', text='reader joins + pieces')
     # ---- Q5 --------------------------------------------------------------------------------------------------
     edb = db.methods('EngineDB')
     pb, ge, gf = edb['_parse_block'], edb['get_ent'], edb['get_fgd']
-    psrc = ast.unparse(pb)
+    psrc = U(pb)
     stores = [n for n in ast.walk(pb) if isinstance(n, ast.Assign) and any(isinstance(t, ast.Subscript) and dotted(t.value) == 'self.ent_map' for t in n.targets)]
     ok = len(stores) == 1 and isinstance(stores[0].value, ast.Call) and dotted(stores[0].value.func) == 'ent_unserialise'
     ctx.check('C16.Q5', ok, db, pb, '_parse_block stores only freshly unserialised entities into ent_map', func='EngineDB._parse_block', text='only fresh entities stored')
@@ -727,9 +728,9 @@ def run(ctx: Any, prog: Program) -> None:
         fresh = {t.id for n in ast.walk(fn) if isinstance(n, ast.Assign) and isinstance(n.value, ast.Call) and dotted(n.value.func) in (f'{cname}.__new__', cname) for t in n.targets if isinstance(t, ast.Name)}
         rets = [r for r in ast.walk(fn) if isinstance(r, ast.Return) and r.value is not None]
         bad = [r for r in rets if not (isinstance(r.value, ast.Name) and r.value.id in fresh) and not (isinstance(r.value, ast.Call) and dotted(r.value.func) == cname)]
-        ctx.check('C16.Q5', bool(rets) and not bad, db, bad[0] if bad else fn, f'{fname} returns `{ast.unparse(bad[0].value)[:50] if bad else "?"}`, which is not an object created in this call: definitions must not be shared between entities '
+        ctx.check('C16.Q5', bool(rets) and not bad, db, bad[0] if bad else fn, f'{fname} returns `{U(bad[0].value)[:50] if bad else "?"}`, which is not an object created in this call: definitions must not be shared between entities '
                   '(lookup results would depend on the order of earlier lookups)', func=fname, text=f'{fname} returns a fresh {cname}')
-    ok = 'classes, data = self.unparsed[index]' in psrc and any(isinstance(s, ast.If) and ast.unparse(s.test) == 'not data' and isinstance(s.body[0], ast.Return) for s in pb.body)
+    ok = 'classes, data = self.unparsed[index]' in psrc and any(isinstance(s, ast.If) and U(s.test) == 'not data' and isinstance(s.body[0], ast.Return) for s in pb.body)
     ctx.shape('C16.Q5', ok, db, pb, '_parse_block returns early when the block has already been parsed', func='EngineDB._parse_block', text='early return on blank slot')
     blank = [n for n in ast.walk(pb) if isinstance(n, ast.Assign) and isinstance(n.targets[0], ast.Subscript) and dotted(n.targets[0].value) == 'self.unparsed']
     if not blank:
@@ -751,10 +752,10 @@ def run(ctx: Any, prog: Program) -> None:
                       'not left as a name or looked up in the half-filled map', func='EngineDB._parse_block', text='bases resolved through get_ent')
     ok = bool(blank) and bool(getents) and min(c.lineno for c in getents) > min(n.lineno for n in blank)
     ctx.check('C16.Q5', ok or not getents, db, pb, 'bases are resolved (possibly parsing other blocks) only after this block is marked parsed, so mutual references cannot recurse forever', func='EngineDB._parse_block', text='bases resolved after blanking')
-    gsrc = ast.unparse(ge)
+    gsrc = U(ge)
     ok = 'if isinstance(ent_info, EntityDef):\n        return ent_info' in gsrc and 'self._parse_block(ent_info)' in gsrc and 'classname.casefold()' in gsrc
     ctx.shape('C16.Q5', ok, db, ge, 'get_ent returns the cached definition or parses exactly the block the placeholder names', func='EngineDB.get_ent', text='get_ent cache / placeholder')
-    fsrc = ast.unparse(gf)
+    fsrc = U(gf)
     calls_gf = {dotted(c.func) for c in ast.walk(gf) if isinstance(c, ast.Call)}
     ok = 'self._parse_block' in calls_gf and 'ent_unserialise' not in calls_gf
     ctx.check('C16.Q5', ok, db, gf, 'get_fgd parses through the same _parse_block and hands out a deep copy', func='EngineDB.get_fgd', text='get_fgd shares _parse_block')
